@@ -96,7 +96,7 @@ type c17Case struct {
 	Ops [][]c17Op `json:"ops"` // one list per goroutine
 }
 
-var c17Kinds = []string{"new", "clone", "cloneFn", "cloneForeign", "cloneShared", "received", "addHeader", "addResponse", "readHeaders", "readOne", "setTimeout", "timeout", "addEphemeral", "readEphemeral", "cid", "decodeResponse"}
+var c17Kinds = []string{"new", "clone", "cloneFn", "cloneForeign", "cloneShared", "received", "addHeader", "addResponse", "readHeaders", "readOne", "setTimeout", "timeout", "addEphemeral", "readEphemeral", "cid", "decodeResponse", "encodeRequest", "encodeResponse"}
 
 func genC17(t *rapid.T) c17Case {
 	g := rapid.IntRange(2, 32).Draw(t, "goroutines")
@@ -212,6 +212,23 @@ func execC17Inner(c c17Case) *ev.Failure {
 					wire := refEncodeHeaders([]KV{kv("_opid", ids0), kv(op.K, op.V)})
 					if err := pf.GetProtocol(&thrift.TMemoryBuffer{Buffer: bytes.NewBuffer(wire)}).ReadResponseHeader(shared); err != nil {
 						fails[g] = ev.Failf("harness:read", "%v", err)
+						return
+					}
+				case "encodeRequest", "encodeResponse":
+					// the shared context is serialised (what a call / a reply does) while others change it
+					buf := thrift.NewTMemoryBuffer()
+					var err error
+					if op.Kind == "encodeRequest" {
+						err = pf.GetProtocol(buf).WriteRequestHeader(shared)
+					} else {
+						err = pf.GetProtocol(buf).WriteResponseHeader(shared)
+					}
+					if err != nil {
+						fails[g] = ev.Failf("harness:write", "%v", err)
+						return
+					}
+					if _, _, derr := refDecodeHeaders(buf.Bytes()); derr != nil {
+						fails[g] = ev.Failf("torn-header-block", "headers of the shared context serialised while other goroutines add headers do not decode: %v", derr)
 						return
 					}
 				case "readHeaders":
